@@ -2,6 +2,7 @@ SPECIFICATION Spec
 CONSTANTS
   KeyOrder <- KO2
   Ctxs <- CtxT2
+  Flows <- SingleFlows
   Calls <- CallsThorough
 INVARIANT Emit
 CHECK_DEADLOCK FALSE
